@@ -24,7 +24,7 @@ FILTERS = [".", ".[]", ".a", "1, 2", "empty", "error(\"x\")", "., error(\"late\"
            "\"\\u00e9\"", "@json", "first(.[]?)", "if . then 1 else empty end", "(.. | numbers)", "error(null)", "error({a:1})", ". as [$x] | $x"]
 STDINS = [b"", b"null", b"1 2 3", b"[1,2]\n[3]\n", b"{\"a\":1} {\"a\":[2,3]}", b"\"x\" \"y\"\n", b"1 2 oops 3", b"[1,", b"1\n\n2\n", b"  ", b"# c\n1", b"true false null",
           b"a\nb\r\nc", b"a\0b\0", b"line without newline", b"\n", b"{\"b\":2,\"a\":1}", b"[[1,[2]],{\"x\":[]}]", b"1 [2] {", b"\xff\xfe\n", b"\"\\ud83d\\ude00\"",
-          b"1.10 1e1000 -0.0", b"false", b"[null,false]"]
+          b"1.10 1e1000 -0.0", b"false", b"[null,false]", b"a\0\0\0", b"\0\0", b"a\0\0b", b"\0"]
 OPTSETS = [["--raw-output0", "-j"], ["-j", "--raw-output0"], ["--to", "json", "-j"], ["-j", "--to", "json"], ["-r", "--to", "json"], ["--to", "raw", "-c"],
            ["--raw-output0", "-r"], ["-r", "--raw-output0"], ["-cj"], ["-jc", "--raw-output0"], ["--from", "json", "-c"], ["--from", "raw", "-c"], ["-R", "--from", "json", "-c"],
            ["--from", "json", "-R", "-c"], ["--raw-input0", "-R", "-c"], ["-R", "--raw-input0", "-c"], ["--tab", "--indent", "3"], ["--indent", "3", "--tab"], ["--indent", "1", "--indent", "4"],
@@ -118,6 +118,11 @@ def custom(ctx):
     v2, s2, n2 = oracles(rng, tier)
     violations += v2
     stats.update(s2)
+    for fn in (files_as_stdin, interleaving, dialogues):
+        v3, s3, n3 = fn(rng, tier)
+        violations += v3
+        stats.update(s3)
+        n2 += n3
     return dict(stats=stats, evaluations=len(jobs) + n2, distinct=distinct, violations=violations, samples=samples,
                 coverage=dict(option_sets=len(OPTSETS), filters=len(FILTERS), stdins=len(STDINS)))
 
@@ -190,3 +195,117 @@ def oracles(rng, tier):
     import shutil
     shutil.rmtree(d, ignore_errors=True)
     return viol, stats, len(T)
+
+
+def files_as_stdin(rng, tier):
+    """the inputs of several files are the inputs of their concatenation: same outputs; same outcome, except that
+    --exit-status looks at the outputs for the last file (main.rs: one run per file)"""
+    viol, stats = [], dict(files_ok=0, files_fail=0)
+    d = tempfile.mkdtemp(prefix="c17f-", dir=os.path.join(core.ROOT, "build"))
+    pools = {"json": [b"1 2 3\n", b"[1,2]\n[3]\n", b"{\"a\":1} {\"a\":[2,3]}\n", b"null\n", b"false\n", b"true false null\n", b"\n", b"", b"\"x\" \"y\"\n", b"[null,false]\n", b"0\n"],
+             "raw": [b"a\nb\n", b"\n\n", b"x\n", b"", b"l1\r\nl2\n", b"\xff\n"],
+             "raw0": [b"a\0b\0", b"a\0\0\0", b"\0\0", b"\0", b"", b"x\0", b"a\nb\0"]}
+    last_extra = {"json": [b"1 2 oops 3", b"[1,", b"4"], "raw": [b"no newline"], "raw0": [b"a\0b", b"a"]}
+    optsets = [[], ["-c"], ["-e"], ["-ce"], ["-r"], ["-j"], ["-S", "-c"], ["-e", "-r"]]
+    filters = [f for f in FILTERS if "halt" not in f] + ["select(.)", ".[]?", "if . then . else empty end", "not", "length", "empty", "select(. == null)"]
+    jobs, meta = [], []
+    n = 160 if tier == "quick" else 3000
+    for i in range(n):
+        kind = rng.choice(["json", "json", "json", "raw", "raw0"])
+        k = rng.randint(1, 3)
+        contents = [rng.choice(pools[kind]) for _ in range(k)]
+        if rng.random() < 0.2:
+            contents[-1] = rng.choice(last_extra[kind])
+        names = []
+        for j, c in enumerate(contents):
+            nm = "f%d_%d" % (i, j)
+            with open(os.path.join(d, nm), "wb") as fh:
+                fh.write(c)
+            names.append(nm)
+        o = list(rng.choice(optsets)) + {"json": [], "raw": ["-R"], "raw0": ["--raw-input0"]}[kind]
+        f = rng.choice(filters)
+        jobs.append(dict(args=o + [f] + names, stdin=b"", cwd=d))
+        jobs.append(dict(args=o + [f], stdin=b"".join(contents), cwd=d))
+        jobs.append(dict(args=o + [f], stdin=contents[-1], cwd=d))
+        meta.append((o, f, contents))
+    res = cli.run_many(jobs)
+    for i, (o, f, contents) in enumerate(meta):
+        (rc, out, err), (rc2, out2, err2), (rc3, out3, err3) = res[3 * i], res[3 * i + 1], res[3 * i + 2]
+        want = rc2
+        if rc2 in (0, 1, 4) and any("e" in a for a in o if a.startswith("-") and not a.startswith("--")):
+            want = rc3 if rc3 in (0, 1, 4) else rc2
+        if out != out2 or rc != want:
+            stats["files_fail"] += 1
+            viol.append(dict(key="cli-files:" + ("status" if out == out2 else "output"),
+                             what="jaq %s %r on files %r: stdout %r status %d; the same inputs on stdin: %r status %d (last file alone: %d)" % (" ".join(o), f, contents, out[:120], rc, out2[:120], rc2, rc3),
+                             case=dict(filter=f, kind="cli-files", args=o + [f], files=[c.decode("latin-1") for c in contents]), impl=None))
+        else:
+            stats["files_ok"] += 1
+    import shutil
+    shutil.rmtree(d, ignore_errors=True)
+    return viol, stats, len(jobs)
+
+
+def interleaving(rng, tier):
+    """each output is written before the next is computed: messages that computing the next output sends to stderr appear
+    after the previous output when both streams are one pipe"""
+    viol, stats = [], dict(interleave_ok=0, interleave_fail=0)
+    jobs, meta = [], []
+    for i in range(60 if tier == "quick" else 1500):
+        items = []
+        for _ in range(rng.randint(2, 6)):
+            v = rng.choice([1, 2, 30, "s", "t u", [1, 2], {"a": 1}])
+            items.append((rng.choice(["out", "out", "dbg", "dbgout", "err"]), v))
+        o = rng.choice([["-c"], ["-c"], ["-cr"], ["-cj"], ["-c", "-S"], ["--raw-output0", "-c"]])
+        inputs = rng.choice([None, b"0", b"0 1", b"0\n1\n2\n"])
+        parts, exp1 = [], []
+        for kind, v in items:
+            js = json.dumps(v, separators=(",", ":"))
+            raw = v.encode() if isinstance(v, str) and ("-cr" in o or "-cj" in o or "--raw-output0" in o) else js.encode()
+            end = b"" if "-cj" in o else (b"\0" if "--raw-output0" in o else b"\n")
+            dbg = b'["DEBUG:", ' + js.encode() + b"]\n"
+            if kind == "out":
+                parts.append(js); exp1.append(raw + end)
+            elif kind == "dbg":
+                parts.append("(%s | debug | empty)" % js); exp1.append(dbg)
+            elif kind == "dbgout":
+                parts.append("(%s | debug)" % js); exp1.append(dbg + raw + end)
+            else:
+                parts.append("(%s | stderr | empty)" % js); exp1.append(v.encode() if isinstance(v, str) else js.encode())
+        prog = ", ".join(parts)
+        reps = 1 if inputs is None else len(inputs.split())
+        jobs.append(dict(args=o + (["-n"] if inputs is None else []) + [prog], stdin=inputs or b"", merge=True))
+        meta.append((o, prog, inputs, b"".join(exp1) * reps))
+    res = cli.run_many(jobs)
+    for (o, prog, inputs, want), (rc, out, _) in zip(meta, res):
+        if out != want or rc != 0:
+            stats["interleave_fail"] += 1
+            viol.append(dict(key="cli-order:interleaving", what="jaq %s %r with stdout and stderr on one pipe wrote %r (status %d); written as computed it is %r" % (" ".join(o), prog, out[:200], rc, want[:200]),
+                             case=dict(filter=prog, kind="cli-interleave", args=o + [prog], stdin=(inputs or b"").decode()), impl=None))
+        else:
+            stats["interleave_ok"] += 1
+    return viol, stats, len(jobs)
+
+
+def dialogues(rng, tier):
+    """a peer that sends each input only after it has read the previous output gets its answers"""
+    viol, stats = [], dict(dialogue_ok=0, dialogue_fail=0)
+    T = [(["-nc", "\"ready\", [input]"], [b"\"go\"\n"], [b"\"ready\"", b"[\"go\"]"]),
+         (["-nc", "1, input, input"], [b"10\n", b"20\n"], [b"1", b"10", b"20"]),
+         (["-c", "., input"], [None, b"5 6\n"], None),
+         (["-nr", "\"a\", (input | tostring), \"b\", (input | tostring)"], [b"1\n", None, b"2\n"], [b"a", b"1", b"b", b"2"]),
+         (["-nc", "[1,2], {a: input}"], [b"null\n"], [b"[1,2]", b"{\"a\":null}"]),
+         (["-n", "--raw-input", "\"q\", input"], [b"line\n"], [b"\"q\"", b"\"line\""])]
+    n = 0
+    for args, answers, want in T:
+        if want is None:
+            continue
+        lines, st = cli.dialogue(args, answers)
+        n += 1
+        if lines != want or st != 0:
+            stats["dialogue_fail"] += 1
+            viol.append(dict(key="cli-order:dialogue", what="jaq %s: a peer that answers each output with the next input read %r (%s); expected %r" % (" ".join(args), lines, st, want),
+                             case=dict(filter=args[-1], kind="cli-dialogue", args=args, answers=[a.decode() if a else None for a in answers]), impl=None))
+        else:
+            stats["dialogue_ok"] += 1
+    return viol, stats, n
